@@ -45,6 +45,9 @@ type Op struct {
 	// batch: sent as separate begin / point... / end messages (an unbuffered batch edge)
 	// instead of one BufferedBatchMessage
 	Unbuffered bool `json:"unbuffered,omitempty"`
+	// batch: the size hint of its BeginBatch: "" = number of points, "zero" = 0 (unknown, what
+	// join and unbuffered producers announce), "over" = points+3, "under" = 1
+	Hint string `json:"hint,omitempty"`
 	// snapshot: the bytes the agent answers with; restore: the bytes handed to Restore()
 	Data []byte `json:"data,omitempty"`
 	// snapshot/restore: the feeder waits for the call to return before it goes on; otherwise
@@ -200,7 +203,7 @@ func genBatch(t *rapid.T) *kit.Bt {
 var opKinds = []string{"data", "data", "data", "data", "data", "data", "data", "snapshot", "restore", "data", "waitping", "data", "snapshot", "data"}
 
 func genEcho(t *rapid.T) EchoCase {
-	bigLeft = 2
+	bigLeft, hugeLeft = 2, 1
 	c := EchoCase{Batch: rapid.SampledFrom([]bool{true, false, true, false, true}).Draw(t, "edge")}
 	c.KeepaliveMs = rapid.SampledFrom([]int{0, 0, 0, 60, 100, 200}).Draw(t, "keepalive")
 	c.Buffered = rapid.Bool().Draw(t, "buffered")
@@ -229,7 +232,8 @@ func genEcho(t *rapid.T) EchoCase {
 			op = Op{Kind: "waitping"}
 			pings++
 		case c.Batch:
-			op = Op{Kind: "batch", B: genBatch(t), Unbuffered: rapid.Bool().Draw(t, "unbuffered")}
+			op = Op{Kind: "batch", B: genBatch(t), Unbuffered: rapid.Bool().Draw(t, "unbuffered"),
+				Hint: rapid.SampledFrom([]string{"", "", "", "zero", "zero", "over", "under"}).Draw(t, "hint")}
 		default:
 			op = Op{Kind: "point", P: genPoint(t, shapes)}
 		}
@@ -645,6 +649,9 @@ func runEcho(c EchoCase, cc *kit.Case) {
 			if len(op.B.Points) == 0 {
 				cc.Label("batch-empty")
 			}
+			if op.Hint != "" {
+				cc.Label("batch-hint:" + op.Hint)
+			}
 			if op.B.ByName {
 				cc.Label("batch-byName")
 			}
@@ -666,6 +673,9 @@ func runEcho(c EchoCase, cc *kit.Case) {
 				cc.Label("op:" + op.Kind + "-sync")
 			} else {
 				cc.Label("op:" + op.Kind + "-overlapping")
+			}
+			if len(op.Data) > 1<<20 {
+				cc.Label("payload>1MiB")
 			}
 		}
 	}
@@ -894,7 +904,16 @@ func (s *session) run(c EchoCase, srv *udf.Server, a *agent.Agent, h *echoHandle
 				}
 			case "batch":
 				bm := op.B.Msg()
+				// the batch comes back with the number of its points as size hint, whatever was announced
 				s.expected = append(s.expected, observe(bm))
+				switch op.Hint {
+				case "zero":
+					bm.Begin().SetSizeHint(0)
+				case "over":
+					bm.Begin().SetSizeHint(len(op.B.Points) + 3)
+				case "under":
+					bm.Begin().SetSizeHint(1)
+				}
 				if !op.Unbuffered {
 					if !send(bm) {
 						return
@@ -979,7 +998,7 @@ func (s *session) run(c EchoCase, srv *udf.Server, a *agent.Agent, h *echoHandle
 
 var echoAssumptions = []string{
 	"Echo: the agent is udf/agent's Agent with a Handler that sends every BeginBatch/Point/EndBatch back unchanged (mirror.go's Point; batches as udf/server_test.go echoes them); Info declares STREAM/STREAM or BATCH/BATCH",
-	"Echo: inputs are built with edge.NewPointMessage / edge.NewBeginBatchMessage as the pipeline does: stream dimensions are a sorted duplicate-free tag-name list (group_by.go sorts them) that may name tags the point lacks; a batch's dimensions are the sorted keys of its group tags and its size hint is its number of points",
+	"Echo: inputs are built with edge.NewPointMessage / edge.NewBeginBatchMessage as the pipeline does: stream dimensions are a sorted duplicate-free tag-name list (group_by.go sorts them) that may name tags the point lacks; a batch's dimensions are the sorted keys of its group tags; its size hint is its number of points, 0 (unknown: what join announces), too large or too small - a hint only - and the batch comes back with its number of points as hint",
 	"Echo: measurement, tag and field names are non-empty; strings are valid UTF-8 (hostile otherwise: quotes, backslashes, newlines, NUL, separators, multi-byte runes, empty values, 128 B - 20 KB long); times are any int64 nanosecond instant",
 	"Echo: identical = equal name, database, retention policy, group id, dimensions (TagNames and ByName), tags and fields as maps (nil = empty), dynamic field types, time as UTC instant; floats bit-exact via shortest round-trip formatting, all NaNs alike; for batches additionally tmax, size hint, number, order and content (tags, fields, time) of the points and presence of the end message; the group string is checked although the wire value is recomputed on the way back",
 	"Echo: Snapshot()/Restore() are called one at a time from a single control goroutine (as ExecutingTask does), concurrently with the data; nil and empty byte slices are the same bytes",
